@@ -157,7 +157,11 @@ func (r *Run) Infra(err error) {
 	}
 }
 
-func (r *Run) Failed() bool { r.mu.Lock(); defer r.mu.Unlock(); return len(r.violations) > 0 || r.infraErr != nil }
+func (r *Run) Failed() bool {
+	r.mu.Lock()
+	defer r.mu.Unlock()
+	return len(r.violations) > 0 || r.infraErr != nil
+}
 
 // Finish writes the evidence file and returns the process exit code.
 func (r *Run) Finish() int {
@@ -210,8 +214,13 @@ func (r *Run) Finish() int {
 		ev["assumptions"] = []string{}
 	}
 	b, _ := json.MarshalIndent(ev, "", " ")
-	os.MkdirAll(filepath.Join(VerifRoot(), "evidence"), 0o755)
-	if err := os.WriteFile(filepath.Join(VerifRoot(), "evidence", r.ID+".json"), append(b, '\n'), 0o644); err != nil {
+	// evidence of engines that serve no listed property ("X-...") is kept apart from the per-property files
+	evdir := filepath.Join(VerifRoot(), "evidence")
+	if strings.HasPrefix(r.ID, "X-") {
+		evdir = filepath.Join(evdir, "engines")
+	}
+	os.MkdirAll(evdir, 0o755)
+	if err := os.WriteFile(filepath.Join(evdir, r.ID+".json"), append(b, '\n'), 0o644); err != nil {
 		fmt.Printf("ERROR property=%s cannot write evidence: %v\n", r.ID, err)
 		return 2
 	}
